@@ -157,6 +157,48 @@ static void nest_case(int kind, int leaf, size_t depth) {
   vh_nontrivial(case_hash);
 }
 
+/* Flat runs: more than L items side by side that never nest - empty containers in every head width, empty strings,
+ * chunked strings and indefinite containers that open one level and close it again - bare (cbor_load takes the first),
+ * or as the members of an indefinite or a definite array. The nesting never exceeds 2, so for L >= 2 everything is
+ * accepted; a limit applied to anything other than the current depth (items seen, heads of one kind in a row, a
+ * high-water mark that is never lowered) shows here. descriptor: 'F', unit, wrap, u32 count */
+static const uint8_t flat_units[][9] = {{0x80}, {0x98, 0}, {0x99, 0, 0}, {0x9a, 0, 0, 0, 0}, {0x9b, 0, 0, 0, 0, 0, 0, 0, 0}, {0xa0}, {0xb8, 0}, {0xb9, 0, 0}, {0xbb, 0, 0, 0, 0, 0, 0, 0, 0}, {0x40}, {0x58, 0}, {0x60}, {0x78, 0},
+                                        {0x5f, 0xff}, {0x7f, 0xff}, {0x9f, 0xff}, {0xbf, 0xff}, {0x81, 0x00}, {0xa1, 0x00, 0x00}, {0xc1, 0x00}, {0xd8, 0x18, 0x40}, {0x9f, 0x80, 0xff}};
+static const uint8_t flat_len[] = {1, 2, 3, 5, 9, 1, 2, 3, 9, 1, 2, 1, 2, 2, 2, 2, 2, 2, 3, 2, 3, 3};
+enum { FLAT_N = sizeof flat_len };
+static void flat_case(int unit, int wrap, size_t count) {
+  uint8_t desc[7] = {'F', (uint8_t)unit, (uint8_t)wrap, (uint8_t)(count >> 24), (uint8_t)(count >> 16), (uint8_t)(count >> 8), (uint8_t)count};
+  if (!vh_case(desc, 7)) return;
+  struct vh_buf x = {0};
+  if (wrap == 1) vb_u8(&x, 0x9f);
+  else if (wrap == 2) { vb_u8(&x, 0x9a); vb_be(&x, count, 4); }
+  for (size_t i = 0; i < count; i++) vb_put(&x, flat_units[unit], flat_len[unit]);
+  if (wrap == 1) vb_u8(&x, 0xff);
+  struct rverdict z = ref_decode(x.p, x.n, LIM, RM_LAZY, false, NULL);
+  if (z.tree) rn_free(z.tree);
+  struct job j;
+  memset(&j, 0, sizeof j);
+  j.in = x.p; j.n = x.n;
+  ta_reset_stats();
+  run_job(&j);
+  char what[200];
+  snprintf(what, sizeof what, "%zu x %s side by side%s, limit %zu", count, vh_hex(flat_units[unit], flat_len[unit], 9), wrap == 1 ? " as the members of an indefinite array" : wrap == 2 ? " as the members of a definite array" : " (the first is the item, the rest trails)", LIM);
+  bool done = !strcmp(j.phase, "done");
+  if (j.overflowed) { vh_violation("native-stack-exhausted", "%s: the thread stack overflowed during %s", what, j.phase); ta_forget_all(); }
+  else if (z.code == RC_ACCEPT) {
+    if (!done) vh_violation("within-limit-rejected", "%s: nesting never exceeds %d, yet cbor_load failed with %s at %zu (allocator refusals: %llu)", what, wrap ? 2 : 1, code_name((int)j.res.error.code), j.res.error.position, (unsigned long long)TA.refused);
+    else if (j.res.read != z.read) vh_violation("read-differs", "%s: read=%zu, the first item occupies %zu", what, j.res.read, z.read);
+    else if (!j.copy_ok) vh_violation("copy-failed", "%s: cbor_copy returned NULL without any refusal", what);
+    else VH_COUNT("flat_runs_accepted", 1);
+  } else if (z.code == RC_MEMERROR) { /* only for limits below 2 */
+    if (done || j.res.error.code != CBOR_ERR_MEMERROR || j.res.error.position != z.pos) vh_violation("beyond-limit-wrong-position", "%s: expected MEMERROR at %zu, got %s at %zu", what, z.pos, done ? "an item" : code_name((int)j.res.error.code), j.res.error.position);
+    else VH_COUNT("flat_runs_rejected_beyond_limit", 1);
+  } else vh_die("flat run: the reference rejects a well-formed input (%d at %zu)", z.code, z.pos);
+  if (ta_live_count()) { vh_violation("leak", "%s: %zu block(s) left", what, ta_live_count()); ta_forget_all(); }
+  vb_free(&x);
+  vh_nontrivial(vh_hash_mix(vh_hash(desc, 7), LIM));
+}
+
 static void nest_setup(void) {
   if (strcmp(O.prop, "C19")) vh_die("driver nest: --prop must be C19");
   LIM = (size_t)O.L;
@@ -215,6 +257,21 @@ static void nest_run(void) {
           VH_COUNT("heavy_leaf_cases", 1);
         }
   }
+  /* flat runs of L-1 .. 2L+3 items that never nest */
+  {
+    size_t counts[6]; size_t nc = 0;
+    if (LIM >= 2) counts[nc++] = LIM - 1;
+    counts[nc++] = LIM; counts[nc++] = LIM + 1; counts[nc++] = LIM + 2; counts[nc++] = 2 * LIM + 3;
+    if (LIM < 1000) counts[nc++] = 5000;
+    for (int u = 0; u < FLAT_N; u++)
+      for (int wrap = 0; wrap < 3; wrap++)
+        for (size_t ci = 0; ci < nc; ci++, unit++) {
+          if (unit % O.nshards != O.shard) continue;
+          if (LIM >= 65536 && !O.thorough && (ci == 0 || ci == 3 || (u % 3) != 1)) continue;
+          if (counts[ci] == 0 && wrap == 0) continue; /* the empty input is not an item */
+          flat_case(u, wrap, counts[ci]);
+        }
+  }
   vh_count_dyn("max_stack_high_water_bytes", g_hwm);
   vh_count_dyn("max_stack_budget_bytes", g_stack_len - 4096);
   vh_set_rule("each case is a nesting chain (one of 9 container patterns x scalar / chunked-bytes / chunked-text / empty definite array / empty definite map innermost, plus 2 MiB strings and 400000-member containers innermost at depths 0, 1, 3) of a given depth, decoded, sized, serialized, described, copied and released on a thread with a fixed pre-painted stack; outcome and MEMERROR position are compared with the generator's bookkeeping and the reference decoder; every case non-trivial; distinct by (pattern, leaf, depth, L, optimisation level)");
@@ -222,6 +279,7 @@ static void nest_run(void) {
 }
 static void nest_exec(const uint8_t* d, size_t n) {
   nest_setup();
+  if (n == 7 && d[0] == 'F') { flat_case(d[1], d[2], (size_t)d[3] << 24 | (size_t)d[4] << 16 | (size_t)d[5] << 8 | d[6]); return; }
   if (n != 6) { printf("bad C19 descriptor\n"); return; }
   nest_case(d[0], d[1], (size_t)d[2] << 24 | (size_t)d[3] << 16 | (size_t)d[4] << 8 | d[5]);
 }
